@@ -77,6 +77,8 @@ pub struct Ctx {
     /// heap oracle parameters (C01): A bytes per input byte, B constant
     pub heap_a: usize,
     pub heap_b: usize,
+    /// largest observed peak/bound ratio in permille and the entry point it was seen at (C01 margin probe)
+    pub heap_margin: (u64, &'static str),
 }
 
 impl Ctx {
@@ -95,6 +97,7 @@ impl Ctx {
             max_violations: 8,
             heap_a: crate::heap_bound_a(),
             heap_b: 4096,
+            heap_margin: (0, ""),
         }
     }
 
@@ -156,6 +159,10 @@ impl Ctx {
         }
         if self.prop == Prop::C01 {
             let bound = self.heap_a.saturating_mul(input_len).saturating_add(self.heap_b).saturating_add(extra_heap);
+            let pm = (rep.peak as u64).saturating_mul(1000) / bound.max(1) as u64;
+            if pm > self.heap_margin.0 {
+                self.heap_margin = (pm, entry);
+            }
             if rep.peak > bound {
                 let peak = rep.peak;
                 self.violate(Prop::C01, format!("heap/{}", entry), || {
@@ -202,6 +209,7 @@ pub struct Stats {
     pub violating_runs: u64,
     pub digests: Vec<(u64, u64)>,
     pub harness_errors: Vec<String>,
+    pub heap_margin: (u64, String),
 }
 
 impl Stats {
@@ -236,6 +244,9 @@ impl Stats {
         }
         if keep_digest {
             self.digests.push((idx, ctx.digest));
+        }
+        if ctx.heap_margin.0 > self.heap_margin.0 {
+            self.heap_margin = (ctx.heap_margin.0, ctx.heap_margin.1.to_string());
         }
     }
 
@@ -275,5 +286,8 @@ impl Stats {
         }
         self.digests.extend(o.digests);
         self.harness_errors.extend(o.harness_errors);
+        if o.heap_margin.0 > self.heap_margin.0 || (o.heap_margin.0 == self.heap_margin.0 && o.heap_margin.1 < self.heap_margin.1) {
+            self.heap_margin = o.heap_margin;
+        }
     }
 }
